@@ -288,4 +288,197 @@ Proof.
 Qed.
 
 
+
+(* ---------------------------------------------------------------------------------------------------------- *)
+(* Pipeline invariant: where a request that was read and is not answered sits. *)
+
+Record Pipe (s : state) : Prop := {
+  P_run : forall c r, In (c, r) (running s) -> rs s c r = Running;
+  P_queued : forall c r, rs s c r = Queued -> In (c, r) (queue s);
+  P_inhand : forall c r, rs s c r = InHand -> hand s = Some (c, r);
+  P_pend : forall c r, rs s c r = Pending -> pend s c = Some r;
+  P_w0 : W = 0 -> forall c r, rs s c r <> Pending /\ rs s c r <> Queued /\ rs s c r <> InHand;
+  P_wn : W <> 0 -> forall c r, rs s c r <> Spawned;
+  P_stop : stopped s = true -> early = false -> listen s <> 0 /\ forall c, In c (known s) -> inmap s c = false;
+  P_running : forall c r, rs s c r = Running -> In (c, r) (running s)
+}.
+
+Lemma init_Pipe : Pipe init.
+Proof.
+  constructor; cbn; intros; try discriminate; try contradiction; auto.
+  all: repeat split; discriminate.
+Qed.
+
+Lemma step_P_run : forall s l s', Safe s -> Pipe s -> stepW s l = Some s' ->
+  forall c r, In (c, r) (running s') -> rs s' c r = Running.
+Proof.
+  intros s l s' [J1 J2 J2' J3 J4 J5 J6 J7] [K1 K2 K3 K4 K5 K6 K7 K8] H c0 r0 Hq.
+  open_step H; split_guards.
+  all: try (apply in_remove_req in Hq; destruct Hq as [Hq Hne]).
+  all: try (cbn [In] in Hq; destruct Hq as [Hq | Hq]; [inversion Hq; subst|]).
+  all: upd_cases; try (apply K1; assumption); auto; try congruence.
+  all: try (pose proof (K1 _ _ Hq); congruence).
+  apply existsb_req_in in H0. pose proof (J6 _ _ H0). pose proof (K1 _ _ Hq). congruence.
+Qed.
+
+Lemma step_P_queued : forall s l s', Safe s -> Pipe s -> stepW s l = Some s' ->
+  forall c r, rs s' c r = Queued -> In (c, r) (queue s').
+Proof.
+  intros s l s' [J1 J2 J2' J3 J4 J5 J6 J7] [K1 K2 K3 K4 K5 K6 K7 K8] H c0 r0 Hq.
+  open_step H; split_guards.
+  all: upd_cases; try (apply K2; assumption); auto; try congruence.
+  all: try (apply in_app_iff; cbn [In]; auto; fail).
+  all: try (apply in_remove_req; split; [apply K2; assumption | congruence]).
+  all: try (match goal with Hx : (if ?b then _ else _) = Queued |- _ => destruct b; discriminate end).
+Qed.
+
+Lemma step_P_inhand : forall s l s', Safe s -> Pipe s -> stepW s l = Some s' ->
+  forall c r, rs s' c r = InHand -> hand s' = Some (c, r).
+Proof.
+  intros s l s' [J1 J2 J2' J3 J4 J5 J6 J7] [K1 K2 K3 K4 K5 K6 K7 K8] H c0 r0 Hq.
+  open_step H; split_guards.
+  all: upd_cases; try (apply K3; assumption); auto; try congruence.
+  all: try (match goal with Hx : (if ?b then _ else _) = InHand |- _ => destruct b; discriminate end).
+  all: try (pose proof (K3 _ _ Hq); congruence).
+Qed.
+
+Lemma step_P_pend : forall s l s', Safe s -> Pipe s -> stepW s l = Some s' ->
+  forall c r, rs s' c r = Pending -> pend s' c = Some r.
+Proof.
+  intros s l s' [J1 J2 J2' J3 J4 J5 J6 J7] [K1 K2 K3 K4 K5 K6 K7 K8] H c0 r0 Hq.
+  open_step H; split_guards.
+  all: upd_cases; try (apply K4; assumption); auto; try congruence.
+  all: try (match goal with Hx : (if ?b then _ else _) = Pending |- _ => destruct b; discriminate end).
+  all: try (pose proof (K4 _ _ Hq); congruence).
+Qed.
+
+Lemma step_P_w0 : forall s l s', Safe s -> Pipe s -> stepW s l = Some s' ->
+  W = 0 -> forall c r, rs s' c r <> Pending /\ rs s' c r <> Queued /\ rs s' c r <> InHand.
+Proof.
+  intros s l s' [J1 J2 J2' J3 J4 J5 J6 J7] [K1 K2 K3 K4 K5 K6 K7 K8] H HW c0 r0.
+  open_step H; split_guards.
+  all: upd_cases; try (apply K5; assumption); auto; try congruence.
+  all: try (repeat split; discriminate).
+  all: try (destruct (cstate_eqb (cst s c) CClosed); repeat split; discriminate).
+  exfalso. destruct (K5 eq_refl c r) as [Hx _]. congruence.
+Qed.
+
+Lemma step_P_wn : forall s l s', Safe s -> Pipe s -> stepW s l = Some s' ->
+  W <> 0 -> forall c r, rs s' c r <> Spawned.
+Proof.
+  intros s l s' [J1 J2 J2' J3 J4 J5 J6 J7] [K1 K2 K3 K4 K5 K6 K7 K8] H HW c0 r0.
+  open_step H; split_guards.
+  all: upd_cases; try (apply K6; assumption); auto; try congruence.
+  all: try discriminate.
+  all: try (destruct (cstate_eqb (cst s c) CClosed); discriminate).
+Qed.
+
+Lemma forallb_all_gone : forall s, all_gone s = true -> forall c, In c (known s) -> inmap s c = false.
+Proof.
+  unfold all_gone. intros s H c Hc. rewrite forallb_forall in H. apply H in Hc. apply negb_true_iff in Hc. exact Hc.
+Qed.
+
+Lemma step_P_stop : forall s l s', Safe s -> Pipe s -> stepW s l = Some s' ->
+  stopped s' = true -> early = false -> listen s' <> 0 /\ forall c, In c (known s') -> inmap s' c = false.
+Proof.
+  intros s l s' [J1 J2 J2' J3 J4 J5 J6 J7] [K1 K2 K3 K4 K5 K6 K7 K8] H Hst He.
+  open_step H; split_guards;
+    try (destruct (K7 Hst eq_refl) as [K7a K7b]);
+    try (split; [assumption|]; intros c0 Hc0; upd_cases; auto; fail);
+    try contradiction;
+    try (exfalso;
+         match goal with Hc : cst s ?c = _ |- _ =>
+           assert (Hk : In c (known s)) by (apply J1; congruence);
+           destruct (J2 c (K7b c Hk)); congruence end).
+  - split; [assumption|]. apply forallb_all_gone. cbn in H0. exact H0.
+  - split; auto. destruct (listen s =? 1); auto.
+Qed.
+
+Lemma step_P_running : forall s l s', Safe s -> Pipe s -> stepW s l = Some s' ->
+  forall c r, rs s' c r = Running -> In (c, r) (running s').
+Proof.
+  intros s l s' [J1 J2 J2' J3 J4 J5 J6 J7] [K1 K2 K3 K4 K5 K6 K7 K8] H c0 r0 Hq.
+  open_step H; split_guards.
+  all: upd_cases; try (apply K8; assumption); auto; try congruence.
+  all: try (cbn [In]; auto; fail).
+  all: try (match goal with Hx : (if ?b then _ else _) = Running |- _ => destruct b; discriminate end).
+  all: try (apply in_remove_req; split; [apply K8; assumption | congruence]).
+Qed.
+
+Lemma step_Pipe : forall s l s', Safe s -> Pipe s -> stepW s l = Some s' -> Pipe s'.
+Proof.
+  intros s l s' HS HP H. constructor.
+  - eapply step_P_run; eauto.
+  - eapply step_P_queued; eauto.
+  - eapply step_P_inhand; eauto.
+  - eapply step_P_pend; eauto.
+  - eapply step_P_w0; eauto.
+  - eapply step_P_wn; eauto.
+  - eapply step_P_stop; eauto.
+  - eapply step_P_running; eauto.
+Qed.
+
+Lemma reachable_Pipe : forall s, reachable s -> Pipe s.
+Proof.
+  apply reachable_ind'. apply init_Pipe. intros. eapply step_Pipe; eauto. apply reachable_Safe; auto.
+Qed.
+
+
+
+(* C12, clause "every request already read is executed and answered" — no read request is ever stuck: as long as
+   the process lives and some request is read-and-unanswered, a step of the request pipeline (enqueue, take, start,
+   finish) is enabled, whatever the shutdown phase. (With the pool released early this is false: see below.) *)
+Definition pipeline_label (l : label) : Prop :=
+  match l with LEnqueue _ _ | LTake _ _ | LStart _ _ | LFinish _ _ => True | _ => False end.
+
+Lemma unanswered_conn_live : forall s, Safe s -> forall c r, unanswered (rs s c r) = true ->
+  (cst s c = COpen \/ cst s c = CExited) /\ In c (known s) /\ inmap s c = true.
+Proof.
+  intros s [J1 J2 J2' J3 J4 J5 J6 J7] c r Hu.
+  apply J3 in Hu.
+  assert (Hc : cst s c = COpen \/ cst s c = CExited).
+  { destruct (cst s c) eqn:E; auto; rewrite (J4 c) in Hu by auto; contradiction. }
+  split; auto. split.
+  - apply J1. destruct Hc; congruence.
+  - destruct (inmap s c) eqn:E; auto. destruct (J2 c E); destruct Hc; congruence.
+Qed.
+
+Theorem read_requests_progress : early = false -> (0 < cap)%N ->
+  forall s, reachable s -> alive (ph s) = true ->
+  forall c r, unanswered (rs s c r) = true ->
+  exists l, pipeline_label l /\ stepW s l <> None.
+Proof.
+  intros He Hcap s Hr Halive c r Hu.
+  pose proof (reachable_Safe s Hr) as HS. pose proof (reachable_Pipe s Hr) as HP.
+  destruct (unanswered_conn_live s HS c r Hu) as [Hc [Hk Hm]].
+  destruct HS as [J1 J2 J2' J3 J4 J5 J6 J7]. destruct HP as [K1 K2 K3 K4 K5 K6 K7 K8].
+  assert (Hns : stopped s = false).
+  { destruct (stopped s) eqn:E; auto. destruct (K7 eq_refl He) as [_ Hg]. rewrite (Hg c Hk) in Hm. discriminate. }
+  destruct (running s) as [|[c1 r1] ru] eqn:Hrun.
+  - destruct (Nat.eq_dec W 0) as [HW | HW].
+    + (* one goroutine per request *)
+      exists (LStart c r). split; [exact I|]. unfold step. rewrite Halive. cbn [negb].
+      apply Nat.eqb_eq in HW. rewrite HW. apply Nat.eqb_eq in HW.
+      destruct (K5 HW c r) as [N1 [N2 N3]].
+      destruct (rs s c r) eqn:E; try discriminate; try congruence.
+      apply K8 in E. contradiction.
+    + destruct (hand s) as [[c2 r2]|] eqn:Hh.
+      * exists (LStart c2 r2). split; [exact I|]. unfold step. rewrite Halive. cbn [negb].
+        apply Nat.eqb_neq in HW. rewrite HW, Hh, req_eqb_refl, Hrun. cbn [length andb].
+        apply Nat.eqb_neq in HW. assert (Hlt : (0 <? W) = true) by (apply Nat.ltb_lt; lia). rewrite Hlt. discriminate.
+      * destruct (queue s) as [|[c3 r3] qs] eqn:Hq.
+        -- destruct (rs s c r) eqn:E; try discriminate.
+           ++ exists (LEnqueue c r). split; [exact I|]. unfold step. rewrite Halive. cbn [negb].
+              rewrite (K4 c r E), E, Nat.eqb_refl, Hq. cbn [length andb N.of_nat].
+              assert (Hlt : (0 <? cap)%N = true) by (apply N.ltb_lt; exact Hcap). rewrite Hlt. discriminate.
+           ++ exfalso. exact (K6 HW c r E).
+           ++ apply K2 in E. contradiction.
+           ++ apply K3 in E. congruence.
+           ++ apply K8 in E. contradiction.
+        -- exists (LTake c3 r3). split; [exact I|]. unfold step. rewrite Halive. cbn [negb].
+           apply Nat.eqb_neq in HW. rewrite Hh, HW, Hns, Hq. cbn [negb andb existsb]. rewrite req_eqb_refl. cbn. discriminate.
+  - exists (LFinish c1 r1). split; [exact I|]. unfold step. rewrite Halive. cbn [negb].
+    rewrite (K1 c1 r1) by (left; reflexivity). cbn. discriminate.
+Qed.
+
 End Proofs.
